@@ -433,6 +433,11 @@ def run(prop, spec, tier, seed, replay, scratch, nproc, t0):
         os.makedirs(os.path.join(VERIF, "evidence"), exist_ok=True)
         with open(os.path.join(VERIF, "evidence", prop + ".json"), "w") as f:
             json.dump(evidence, f, indent=1, sort_keys=True)
+        if tier == "thorough":
+            # keep the last thorough run next to the (quick) file the harness rewrites
+            os.makedirs(os.path.join(VERIF, "evidence-thorough"), exist_ok=True)
+            with open(os.path.join(VERIF, "evidence-thorough", prop + ".json"), "w") as f:
+                json.dump(evidence, f, indent=1, sort_keys=True)
     for l in lines:
         log(l)
     log("%s %s seed=%d: evaluations=%d distinct=%d violations=%d known=%d wall=%.1fs" % (
